@@ -408,7 +408,10 @@ class Migration1x1x1To1x2x0(MongoMigration):
                         rule_type.startswith('vakt.rules.operator') or \
                         rule_type in ['vakt.rules.string.StartsWith',
                                       'vakt.rules.string.EndsWith',
-                                      'vakt.rules.string.Contains']:
+                                      'vakt.rules.string.Contains',
+                                      'vakt.rules.inquiry.SubjectMatch',
+                                      'vakt.rules.inquiry.ActionMatch',
+                                      'vakt.rules.inquiry.ResourceMatch']:
                     raise Irreversible('Context contains rule that exist only in >= v1.2.0: %s' % rule)
             doc['rules'] = doc['context']
             del doc['context']
